@@ -48,12 +48,19 @@ func cloneCase(ac *authCase) *authCase {
 
 func genC03(c *Ctx) error {
 	c.ShardSize = 150
-	c.Notes["rule"] = "for valid signed two-argument requests (3 key types, single key and 2-of-2, four routes): every single-field tamper operator applied to every signed field (request id, chaincode, channel, both method arguments, nonce, signer keys) and to the function name: substitute one byte, truncate, extend, swap neighbouring fields, move 1..2 bytes across each boundary (class boundary_shift), change the nonce, re-target to the second deployed chaincode/channel with and without renaming the fields, replace / permute signer keys. The untampered request is included as control. Non-trivial: every tampered case."
+	c.Notes["rule"] = "for valid signed two-argument requests (3 key types, single key and 2-of-2, four routes): every single-field tamper operator applied to every signed field (request id, chaincode, channel, both method arguments, nonce, signer keys) and to the function name: substitute one byte, truncate, extend, swap neighbouring fields, move 1..2 bytes across each boundary (class boundary_shift), change the nonce, re-target to the second deployed chaincode/channel with and without renaming the fields, deliver a request signed for chaincode tt on channel tt to another chaincode of the same channel (named vt, and named TT), replace / permute signer keys. The untampered request is included as control. Non-trivial: every tampered case."
 	aw, err := newAuthWorld()
 	if err != nil {
 		return err
 	}
 	w := aw.w
+	// two more chaincodes ON CHANNEL tt (not named after the channel): "vt", and "TT" (Fabric names are case-sensitive)
+	if _, err := w.AddTokenAs("vt@tt", "VT", "vt", "tt", ChanOpts{}); err != nil {
+		return err
+	}
+	if _, err := w.AddTokenAs("TT@tt", "TT", "TT", "tt", ChanOpts{}); err != nil {
+		return err
+	}
 	kts := []fpb.KeyType{fpb.KeyType_ed25519, fpb.KeyType_secp256k1, fpb.KeyType_gost}
 	other := w.NewAccount(fpb.KeyType_ed25519)
 	other.ReqN = 1
@@ -173,6 +180,17 @@ func genC03(c *Ctx) error {
 				aw.tag++
 				ac, _ = aw.c03BaseFor("tt", "fiat", "tt", route, acc, "a"+strconv.Itoa(aw.tag), "bb7")
 				emit(ac, "signed_for_other_chaincode")
+				// correctly signed for chaincode tt on channel tt, delivered untouched to another chaincode of the SAME channel
+				for _, dst := range []struct{ key, cc, class string }{{"vt@tt", "vt", "same_channel_other_chaincode"}, {"TT@tt", "TT", "same_channel_chaincode_name_in_other_case"}} {
+					ac = mk()
+					ac.cc, ac.ch, ac.deliverTo = dst.cc, "tt", dst.key
+					emit(ac, dst.class)
+				}
+				// control: that chaincode accepts what was signed for it
+				aw.tag++
+				ac, _ = aw.c03BaseFor("tt", "vt", "tt", route, acc, "a"+strconv.Itoa(aw.tag), "bb7")
+				ac.cc, ac.ch, ac.deliverTo = "vt", "tt", "vt@tt"
+				emit(ac, "none")
 				// signer keys
 				ac = mk()
 				ac.Args[6] = other.Members[0].Pub
